@@ -271,16 +271,80 @@ class _Resolve:
         raise Untranslatable(f"statement {ast.unparse(s)[:80]}")
 
 
+def _hoisted_and_inlined(repo, rel, cls_name, fn_name):
+    """a second normal form of a method, for helper calls the shared normal form leaves alone because an ARGUMENT is itself a call
+    (`cls._helper(header, f(x), n)`): at statement level every argument of such a call that is not a name or a constant is bound to a
+    fresh local first, left to right (names and constants cannot be changed by evaluating the others, so the order of evaluation is
+    kept), then the helpers that did not exist when this reader was written are inlined (py2v.inlined_new_helpers)."""
+    import copy
+    with open(os.path.join(repo, rel)) as f:
+        mod = ast.parse(f.read())
+    cls = py2v.find_class(mod, cls_name)
+    fn = copy.deepcopy(py2v.find_func(cls, fn_name))
+    used = {n.id for n in ast.walk(fn) if isinstance(n, ast.Name)} | {a.arg for a in fn.args.args}
+    count = [0]
+
+    def block(stmts):
+        out = []
+        for s in stmts:
+            for fld in ("body", "orelse", "finalbody"):
+                if isinstance(getattr(s, fld, None), list) and not isinstance(s, (ast.FunctionDef, ast.ClassDef)):
+                    setattr(s, fld, block(getattr(s, fld)))
+            call = s.value if isinstance(s, (ast.Expr, ast.Assign, ast.Return)) and isinstance(getattr(s, "value", None), ast.Call) else None
+            if call is not None and isinstance(call.func, ast.Attribute) and isinstance(call.func.value, ast.Name) \
+                    and call.func.value.id in ("cls", "self", cls_name) and not call.keywords \
+                    and not any(isinstance(a, ast.Starred) for a in call.args):
+                for i, a in enumerate(call.args):
+                    if not isinstance(a, (ast.Name, ast.Constant)):
+                        count[0] += 1
+                        nm = f"hoisted_arg_{count[0]}"
+                        while nm in used:
+                            nm += "_"
+                        used.add(nm)
+                        out.append(ast.Assign(targets=[ast.Name(id=nm, ctx=ast.Store())], value=a))
+                        call.args[i] = ast.Name(id=nm, ctx=ast.Load())
+            out.append(s)
+        return out
+    fn.body = block(list(fn.body))
+    ast.fix_missing_locations(fn)
+    if not count[0]:
+        raise Untranslatable("no helper call with a computed argument to normalise")
+    return py2v.inlined_new_helpers(repo, rel, mod, cls, fn)
+
+
 def gen_resolve(o, repo):
     def thunk():
         mod = py2v.parse(repo, "laspy/header.py")
         fn = py2v.find_func(py2v.find_class(mod, "LasHeader"), "read_from")
+        try:
+            return read(fn)
+        except Untranslatable as first:
+            # the block may have moved into a helper that is called with a computed argument
+            try:
+                fn2 = _hoisted_and_inlined(repo, "laspy/header.py", "LasHeader", "read_from")
+            except Exception:
+                raise first
+            try:
+                return read(fn2)
+            except Untranslatable:
+                raise first
+
+    def read(fn):
         body = list(fn.body)
         start = [i for i, s in enumerate(body) if isinstance(s, ast.Assign) and ast.unparse(s.targets[0]) == "point_format"]
         end = [i for i, s in enumerate(body) if isinstance(s, ast.If) and ast.unparse(s.test) == "read_evlrs"]
         if len(start) != 1 or len(end) != 1 or not start[0] < end[0]:
             raise Untranslatable("read_from: cannot delimit the block that builds the point format")
-        if ast.unparse(body[start[0]].value) != "PointFormat(point_format_id)":
+        built = body[start[0]].value
+        ok = ast.unparse(built) == "PointFormat(point_format_id)"
+        if not ok and isinstance(built, ast.Call) and ast.unparse(built.func) == "PointFormat" and len(built.args) == 1 and not built.keywords \
+                and isinstance(built.args[0], ast.Name):
+            # PointFormat(v), v bound exactly once, to the uncompressed id of the file's point format id
+            v = built.args[0].id
+            binds = [n for n in ast.walk(fn) if isinstance(n, ast.Name) and n.id == v and isinstance(n.ctx, ast.Store)]
+            defs = [s for s in body[:start[0]] if isinstance(s, ast.Assign) and len(s.targets) == 1 and ast.unparse(s.targets[0]) == v]
+            ok = len(binds) == 1 and len(defs) == 1 and ast.unparse(defs[0].value) == "compressed_id_to_uncompressed(point_format_id)"
+        if not ok:
             raise Untranslatable(f"point_format = {ast.unparse(body[start[0]].value)[:60]}")
         ps = [n for n in ast.walk(fn) if isinstance(n, ast.Assign) and any(ast.unparse(t) == "point_size" for t in n.targets)]
         if len(ps) != 1 or "stream.read" not in ast.unparse(ps[0].value):
@@ -654,6 +718,91 @@ def gen_handover(o, repo):
     o.add("handover_guards", guards)
 
 
+# ---------------------------------------------------------------------------------------------------
+# The payloads of the other records the specification lays out and laspy has a class for (laspy/vlrs/known.py): the ctypes
+# structures behind WaveformPacketVlr and GeoKeyDirectoryVlr and the struct format of a ClassificationLookupVlr record, dumped from
+# the running module.
+#   Definition known_structs : list (string * list (string * Z * Z * string * Z * Z) * Z)     (class, fields as in eb_struct_fields, sizeof)
+#   Definition lookup_struct_format : string      Definition lookup_struct_size : Z
+#   Definition lookup_parse_format : string       the format literal parse_record_data unpacks with
+# Fail closed: a structure that is not a packed little-endian one of scalar fields is Untranslatable.
+# ---------------------------------------------------------------------------------------------------
+def gen_known(o, repo):
+    def module():
+        known = sys.modules.get("laspy.vlrs.known") or importlib.import_module("laspy.vlrs.known")
+        if not os.path.realpath(known.__file__).startswith(os.path.realpath(repo)):
+            raise Untranslatable(f"laspy imported from {known.__file__}, not from {repo}")
+        return known
+
+    def structs():
+        known = module()
+        out = []
+        for cname in ("WaveformPacketStruct", "GeoKeysHeaderStructs", "GeoKeyEntryStruct"):
+            S = getattr(known, cname, None)
+            if S is None or not isinstance(S, type) or not issubclass(S, ctypes.LittleEndianStructure):
+                raise Untranslatable(f"{cname} is not a LittleEndianStructure of laspy.vlrs.known")
+            rows = []
+            for name, ct in S._fields_:
+                d = getattr(S, name)
+                code = getattr(ct, "_type_", None)
+                if hasattr(ct, "_length_") or not isinstance(code, str) or len(code) != 1:
+                    raise Untranslatable(f"{cname}.{name}: {ct!r} is not a simple ctypes scalar")
+                if ctypes.sizeof(ct) != d.size:
+                    raise Untranslatable(f"{cname}.{name}: size {d.size}")
+                rows.append(f"({qs(name)}, {int(d.offset)}, {int(d.size)}, {qs(code)}, {int(ctypes.sizeof(ct))}, 1)")
+            out.append(f"({qs(cname)},\n   [" + ";\n    ".join(rows) + f"],\n   {int(ctypes.sizeof(S))})")
+        return "Definition known_structs : list (string * list (string * Z * Z * string * Z * Z) * Z) := [\n  " + ";\n  ".join(out) + "].\n"
+    o.add("known_structs", structs)
+
+    def lookup_format():
+        import struct as _struct
+        known = module()
+        st = getattr(known.ClassificationLookupVlr, "_lookup_struct", None)
+        if not isinstance(st, _struct.Struct):
+            raise Untranslatable("ClassificationLookupVlr._lookup_struct is not a struct.Struct")
+        fmt = st.format if isinstance(st.format, str) else st.format.decode()
+        return f"Definition lookup_struct_format : string := {qs(fmt)}.\nDefinition lookup_struct_size : Z := {int(st.size)}.\n"
+    o.add("lookup_struct_format", lookup_format)
+
+    def lookup_parse():
+        # ClassificationLookupVlr.parse_record_data: every record of the payload, unpacked with ONE struct format, enters the table
+        # under its class number with the description cut at the first NUL -- nothing is skipped, nothing else is stored
+        mod = py2v.parse(repo, "laspy/vlrs/known.py")
+        fn = py2v.find_func(py2v.find_class(mod, "ClassificationLookupVlr"), "parse_record_data")
+        body = [s for s in fn.body if not (isinstance(s, ast.Expr) and isinstance(s.value, ast.Constant))]
+        if len(body) != 1 or not isinstance(body[0], ast.For) or body[0].orelse:
+            raise Untranslatable("parse_record_data is not one for loop")
+        loop = body[0]
+        it = loop.iter
+        if not (isinstance(it, ast.Call) and ast.unparse(it.func) in ("struct.iter_unpack", "self._lookup_struct.iter_unpack", "cls._lookup_struct.iter_unpack",
+                                                                      "ClassificationLookupVlr._lookup_struct.iter_unpack")):
+            raise Untranslatable(f"parse_record_data iterates over {ast.unparse(it)}")
+        if ast.unparse(it.func) == "struct.iter_unpack":
+            if len(it.args) != 2 or not isinstance(it.args[0], ast.Constant) or not isinstance(it.args[0].value, str) or ast.unparse(it.args[1]) != "record_data":
+                raise Untranslatable(f"parse_record_data iterates over {ast.unparse(it)}")
+            fmt = it.args[0].value
+        else:
+            if len(it.args) != 1 or ast.unparse(it.args[0]) != "record_data":
+                raise Untranslatable(f"parse_record_data iterates over {ast.unparse(it)}")
+            # the class's own struct.Struct: its format is the one of the running class
+            st = getattr(module().ClassificationLookupVlr, "_lookup_struct", None)
+            if st is None or not hasattr(st, "format"):
+                raise Untranslatable("ClassificationLookupVlr._lookup_struct is not a struct.Struct")
+            fmt = st.format if isinstance(st.format, str) else st.format.decode()
+        if ast.unparse(loop.target) != "(class_id, desc)":
+            raise Untranslatable(f"loop target {ast.unparse(loop.target)}")
+        stm = [ast.unparse(s) for s in loop.body]
+        shapes = (["description = desc.split(b'\\x00')[0].decode()", "self.lookups[class_id] = description"],
+                  ["self.lookups[class_id] = desc.split(b'\\x00')[0].decode()"])
+        if stm not in shapes:
+            raise Untranslatable(f"loop body of parse_record_data: {stm}")
+        return ("(* laspy/vlrs/known.py ClassificationLookupVlr.parse_record_data: for every record unpacked with this format,\n"
+                "   lookups[class number] = description up to its first NUL *)\n"
+                f"Definition lookup_parse_format : string := {qs(fmt)}.\n"
+                "Definition lookup_parse_keeps_every_record : bool := true.\n")
+    o.add("lookup_parse_format", lookup_parse)
+
+
 _gen0 = gen
 
 
@@ -662,6 +811,7 @@ def gen(repo):  # noqa: F811
     gen_resolve(o, repo)
     gen_append(o, repo)
     gen_handover(o, repo)
+    gen_known(o, repo)
     return o
 
 
